@@ -55,10 +55,10 @@ def run_cases(cases, rep):
     reqs = []
     metas = []
     for rc, parts in cases:
-        chain, text = l2.run_real(rc, parts)
+        chain, text = l2.run_real(rc, parts, final_continuation=False)  # no file after the last run: C03 is about the rows
         case = {"recipe": text, "parts": parts, "ast": rc}
         rule_oracle(rep, case, rc, chain)
-        reqs.append({"m": "l2.run", "recipe": rc, "parts": parts})
+        reqs.append({"m": "l2.run", "recipe": rc, "parts": parts, "final_save": False})
         metas.append((case, chain))
     res = common.model_batch(reqs)
     for (case, chain), m in zip(metas, res):
